@@ -5,7 +5,8 @@ Space: context families accepting `num_randbits` (small configurations) x k x 8 
 modes x operands on the gap/2^(k+2) grid inside selected gaps (first gaps above zero /
 subnormal range, gaps on both sides of binade boundaries, the last gap below the largest
 value and the gap past it) with both signs, plus representable operands, zeros, inf, NaN
-x ALL 2^k values the generator may return, supplied by a scripted random.Random
+x {context built directly, derived by with_params(rm=, num_randbits=), derived by
+with_params(rng=)} x ALL 2^k values the generator may return, supplied by a scripted random.Random
 subclass and by a scripted object with numpy.Generator's `integers`.
 
 Oracle (mc.model.rounding): for every draw the result is the RTZ or the RAZ rounding
@@ -25,7 +26,7 @@ from ..engine.runner import BaseCheck, ShardResult
 from ..engine.adapt import to_x, show
 from ..model.xreal import X
 from ..model import rounding as R
-from .c01 import Config, rf, MODES, grid
+from .c01 import Config, rf, MODES, grid, RM
 
 from fpy2.number import Float, RealFloat
 
@@ -142,9 +143,34 @@ def select_gaps(ms, tier):
     return out
 
 
+PATHS = ('direct', 'derived-rm-k', 'derived-rng')
+
+
+def build_ctx(cfg: Config, mode, ovf, k, rng, path='direct'):
+    """The context under test, built directly by its constructor or derived from another context of the
+    same family through `with_params` (the generator must travel with the derivation):
+      derived-rm-k : base has another mode and no random bits; with_params(rm=, num_randbits=)
+      derived-rng  : base has no generator; with_params(rng=)
+    Returns (ctx, spec) or None when the family does not offer that derivation."""
+    ctx, spec = cfg.build(mode, ovf, k, rng)
+    if path == 'direct':
+        return ctx, spec
+    try:
+        if path == 'derived-rm-k':
+            other = MODES[(MODES.index(mode) + 3) % len(MODES)]
+            base, _ = cfg.build(other, ovf, 0, rng)
+            der = base.with_params(rm=RM[mode], num_randbits=k)
+        else:
+            base, _ = cfg.build(mode, ovf, k, None)
+            der = base.with_params(rng=rng)
+    except TypeError:
+        return None
+    return der, spec
+
+
 class Check(BaseCheck):
     pid = 'C17'
-    rule = ('(configuration, k, base mode, overflow mode, operand, generator kind) with all 2^k draws enumerated per '
+    rule = ('(configuration, construction path, k, base mode, overflow mode, operand, generator kind) with all 2^k draws enumerated per '
             'operand; nontrivial = distinct operands strictly inside a gap (both neighbours reachable)')
     assumptions = ['the two admissible results are the RTZ and RAZ roundings of the operand under the same context, '
                    'computed by the C01 oracle (so the overflow arm is what C01 accepts)',
@@ -165,7 +191,11 @@ class Check(BaseCheck):
     def check_operand(self, r: ShardResult, cfg, ctx, spec, rng, gen, k, mode, ovf, x: X, obj, optext):
         case = {'family': cfg.family, 'params': {a: str(b) for a, b in cfg.params.items()}, 'k': k, 'mode': mode,
                 'overflow': ovf, 'operand': optext, 'gen': gen}
+        path = getattr(self, '_path', 'direct')
         sig0 = {'family': cfg.family, 'gen': gen}
+        if path != 'direct':
+            case['path'] = path
+            sig0['path'] = path
         if k is None:
             sig0['randbits'] = 'None'
 
@@ -279,13 +309,19 @@ class Check(BaseCheck):
             bad('probability', f'{away} of {1 << k} draws round away from zero; expected {want} '
                 f'(position in gap {t}/{1 << k} rounded {mode})', {'pos': 'carry' if want == 1 << k else 'interior'})
 
-    def run_ctx(self, r, cfg, mode, ovf, k, gen):
+    def run_ctx(self, r, cfg, mode, ovf, k, gen, path='direct'):
         rng = ScriptedRandom() if gen == 'Random' else ScriptedGenerator()
         try:
-            ctx, spec = cfg.build(mode, ovf, k, rng)
+            built = build_ctx(cfg, mode, ovf, k, rng, path)
         except ValueError:
             r.count('rejected_configurations')
             return
+        if built is None:
+            r.count('derivation_not_offered')
+            return
+        ctx, spec = built
+        r.outcomes[f'path:{path}'] += 1
+        self._path = path
         ms = members(spec)
         gaps = select_gaps(ms, self.tier)
         r.count('contexts')
@@ -325,6 +361,12 @@ class Check(BaseCheck):
                 for gen in (('Random', 'Generator') if (k is not None and (k <= 2 or self.tier != 'quick'))
                             else ('Random',)):
                     self.run_ctx(r, cfg, mode, ovf, k, gen)
+                    # contexts derived through with_params: k=2 (and None) in the quick tier, every k otherwise
+                    if gen == 'Random' and (self.tier != 'quick' or k in (2, None)):
+                        for path in PATHS[1:]:
+                            if self.tier == 'quick' and k is None and path != 'derived-rm-k':
+                                continue
+                            self.run_ctx(r, cfg, mode, ovf, k, gen, path)
         if m == 0 and i % 8 == 0:
             r.sample({'configuration': cfg.text(), 'mode': mode, 'k': [str(k) for k in self.ks], 'draws': 'all 2^k',
                       'overflow_modes': overflow_modes(cfg)})
@@ -345,7 +387,8 @@ class Check(BaseCheck):
         cfg = Config(case['family'], P)
         gen = case['gen']
         rng = ScriptedRandom() if gen == 'Random' else ScriptedGenerator()
-        ctx, spec = cfg.build(case['mode'], case['overflow'], case['k'], rng)
+        self._path = case.get('path', 'direct')
+        ctx, spec = build_ctx(cfg, case['mode'], case['overflow'], case['k'], rng, self._path)
         name = case['operand']
         if name in ('+inf', '-inf'):
             x, obj = X.inf(name[0] == '-'), Float(s=name[0] == '-', isinf=True)
